@@ -346,14 +346,14 @@ func (idx *RoaringMetadataIndex) queryNumeric(bsiIndex *bsi.BSI, filter Filter) 
 		if err != nil {
 			return nil, err
 		}
-		return bsiIndex.CompareValue(0, bsi.EQ, value, 0, nil), nil
+		return compareNumeric(bsiIndex, bsi.EQ, value), nil
 
 	case OpNotEqual: // Not equal
 		value, err := toInt64(filter.Value)
 		if err != nil {
 			return nil, err
 		}
-		eq := bsiIndex.CompareValue(0, bsi.EQ, value, 0, nil)
+		eq := compareNumeric(bsiIndex, bsi.EQ, value)
 		result := bsiIndex.GetExistenceBitmap().Clone()
 		result.AndNot(eq)
 		return result, nil
@@ -363,28 +363,28 @@ func (idx *RoaringMetadataIndex) queryNumeric(bsiIndex *bsi.BSI, filter Filter) 
 		if err != nil {
 			return nil, err
 		}
-		return bsiIndex.CompareValue(0, bsi.GT, value, 0, nil), nil
+		return compareNumeric(bsiIndex, bsi.GT, value), nil
 
 	case OpGreaterThanOrEqual: // Greater than or equal
 		value, err := toInt64(filter.Value)
 		if err != nil {
 			return nil, err
 		}
-		return bsiIndex.CompareValue(0, bsi.GE, value, 0, nil), nil
+		return compareNumeric(bsiIndex, bsi.GE, value), nil
 
 	case OpLessThan: // Less than
 		value, err := toInt64(filter.Value)
 		if err != nil {
 			return nil, err
 		}
-		return bsiIndex.CompareValue(0, bsi.LT, value, 0, nil), nil
+		return compareNumeric(bsiIndex, bsi.LT, value), nil
 
 	case OpLessThanOrEqual: // Less than or equal
 		value, err := toInt64(filter.Value)
 		if err != nil {
 			return nil, err
 		}
-		return bsiIndex.CompareValue(0, bsi.LE, value, 0, nil), nil
+		return compareNumeric(bsiIndex, bsi.LE, value), nil
 
 	case OpRange: // Range query [value, value2]
 		minVal, err := toInt64(filter.Value)
@@ -395,11 +395,48 @@ func (idx *RoaringMetadataIndex) queryNumeric(bsiIndex *bsi.BSI, filter Filter) 
 		if err != nil {
 			return nil, err
 		}
-		return bsiIndex.CompareValue(0, bsi.RANGE, minVal, maxVal, nil), nil
+		result := compareNumeric(bsiIndex, bsi.GE, minVal)
+		result.And(compareNumeric(bsiIndex, bsi.LE, maxVal))
+		return result, nil
 
 	default:
 		return nil, fmt.Errorf("unsupported operator for numeric field: %s", filter.Operator)
 	}
+}
+
+// compareNumeric returns the documents whose value satisfies "value op operand".
+//
+// BSI.CompareValue (roaring v1.9.4) gives wrong answers when the stored value
+// and the operand differ in sign (EQ(-2) matches 2, LT(3) misses -3, RANGE
+// across zero is wrong). It is reliable when both have the same sign, and
+// GE 0 reliably selects the non-negative values, so the documents are split
+// by sign, compared within the operand's sign class, and the other class is
+// added as a whole where the operator admits it.
+func compareNumeric(bsiIndex *bsi.BSI, op bsi.Operation, operand int64) *roaring.Bitmap {
+	nonNegative := bsiIndex.CompareValue(0, bsi.GE, 0, 0, nil)
+	negative := roaring.AndNot(bsiIndex.GetExistenceBitmap(), nonNegative)
+
+	sameSign, otherSign := nonNegative, negative
+	if operand < 0 {
+		sameSign, otherSign = negative, nonNegative
+	}
+
+	result := roaring.New()
+	if !sameSign.IsEmpty() {
+		result = bsiIndex.CompareValue(0, op, operand, 0, sameSign)
+	}
+
+	switch op {
+	case bsi.LT, bsi.LE:
+		if operand >= 0 { // every negative value is below a non-negative operand
+			result.Or(otherSign)
+		}
+	case bsi.GT, bsi.GE:
+		if operand < 0 { // every non-negative value is above a negative operand
+			result.Or(otherSign)
+		}
+	}
+	return result
 }
 
 // toInt64 converts various numeric types to int64
